@@ -428,6 +428,8 @@ func (x *Extractor) cacheGet(key extractorKey) (any, bool) {
 // deadlock-free: two goroutines decoding mutually-referential objects never wait
 // on each other, so a malformed file cannot hang the reader.
 func (x *Extractor) cacheStoreOrLoad(refs []Reference, tp reflect.Type, res any) any {
+	verifYield("cacheStoreOrLoad:lock")
+	defer verifYield("cacheStoreOrLoad:unlocked")
 	x.mu.Lock()
 	defer x.mu.Unlock()
 	if v, ok := x.cache[extractorKey{ref: refs[0], tp: tp}]; ok {
@@ -451,6 +453,8 @@ func (x *Extractor) cacheStoreOrLoad(refs []Reference, tp reflect.Type, res any)
 func StoreOrLoadPair[A, B any](x *Extractor, ref Reference, a A, b B) (A, B) {
 	ka := extractorKey{ref: ref, tp: reflect.TypeFor[A]()}
 	kb := extractorKey{ref: ref, tp: reflect.TypeFor[B]()}
+	verifYield("StoreOrLoadPair:lock")
+	defer verifYield("StoreOrLoadPair:unlocked")
 	x.mu.Lock()
 	defer x.mu.Unlock()
 	if v, ok := x.cache[ka]; ok {
